@@ -264,12 +264,14 @@ func init() {
 			if !src.Flags.Has(jsonflags.Marshalers) {
 				return (*Marshalers)(nil), false
 			}
-			return src.Marshalers.(*Marshalers), true
+			m, _ := src.Marshalers.(*Marshalers) // nil interface if WithMarshalers(nil)
+			return m, true
 		case *unmarshalersOption:
 			if !src.Flags.Has(jsonflags.Unmarshalers) {
 				return (*Unmarshalers)(nil), false
 			}
-			return src.Unmarshalers.(*Unmarshalers), true
+			u, _ := src.Unmarshalers.(*Unmarshalers) // nil interface if WithUnmarshalers(nil)
+			return u, true
 		default:
 			panic(fmt.Sprintf("unknown option %T", zero))
 		}
@@ -278,10 +280,18 @@ func init() {
 		switch src := src.(type) {
 		case *marshalersOption:
 			dst.Flags.Set(jsonflags.Marshalers | 1)
-			dst.Marshalers = (*Marshalers)(src)
+			// Avoid storing a typed nil pointer in the interface, which the
+			// "mo.Marshalers != nil" checks throughout would treat as present.
+			dst.Marshalers = nil
+			if src != nil {
+				dst.Marshalers = (*Marshalers)(src)
+			}
 		case *unmarshalersOption:
 			dst.Flags.Set(jsonflags.Unmarshalers | 1)
-			dst.Unmarshalers = (*Unmarshalers)(src)
+			dst.Unmarshalers = nil
+			if src != nil {
+				dst.Unmarshalers = (*Unmarshalers)(src)
+			}
 		default:
 			panic(fmt.Sprintf("unknown option %T", src))
 		}
